@@ -49,6 +49,14 @@ def cases(draw, closed_only, allow_verify):
         "dst_state": draw(st.booleans()),
         "src_state": draw(st.sampled_from([False, False, True])),
     }
+    if ntrees >= 2 and draw(st.integers(0, 9)) == 0:
+        # deliberate shape: tree 0 delivered + indexed, destination wiped (index survives), then another
+        # tree that shares a file with tree 0 is requested - the stale index must not vouch for the file
+        shared = draw(content)
+        case["trees"][0] = dict(case["trees"][0], shared=shared)
+        case["trees"][1] = dict(case["trees"][1], **{draw(st.sampled_from(["shared", "other-name"])): shared})
+        case.update(index=True, wipe=True, dst_init=[0], request=[1], dst_files=[], src_missing=[],
+                    fail=[], abort_at=None, src_kind=draw(st.sampled_from(["local", "generic"])))
     if allow_verify and draw(st.integers(0, 3)) == 0:
         case["verify"] = True
         case["corrupt"] = sorted(draw(st.sets(st.integers(0, 15), min_size=1, max_size=2)))
@@ -359,6 +367,8 @@ def classes_of(case, o):
         cl.append("pre-existing-via-second-handle")
     if getattr(o, "via_push", False):
         cl.append("via=index-fetch" if case.get("via") == "fetch" else "via=index-push")
+    if getattr(o, "wiped", False) and case["index"] and case["dst_init"] == [0] and case["request"] == [1]:
+        cl.append("shape:stale-index-shared-file")
     if getattr(o, "wiped", False):
         cl.append("dst-wiped-index-kept" if case["index"] else "dst-wiped")
     return cl
